@@ -126,6 +126,89 @@ def psfSky2Sky (W : Wcs α) (P : PixEll α) (ra dec : α) : α × α × α :=
   let e := pix2skyEllipse W p.1 p.2 P.sx P.sy P.theta
   (e.a, e.b, e.pa)
 
+/-! ### psf lookups WITH a psf map (`psf_file` given)
+
+The map is an oracle: `M.val ra dec` is the `(a, b, pa)` (degrees) that `get_psf_sky2sky(ra, dec)` reads,
+i.e. `psf_map[:3, int(clip(row)), int(clip(col))]` with `(row, col)` the psf-WCS pixel of `(ra, dec)`.
+How the cell is chosen is the map's business (the harness recomputes it independently); what the model
+fixes is that every lookup is `read the map at the position, then convert AT THAT position`.
+
+The real helper is an object with state (the psf image and its WCS are loaded on first use and kept),
+so the lookups are modelled as a state machine `PsfHelper` and as HISTORIES of queries. -/
+
+structure PsfMap (α : Type) where
+  val : α → α → α × α × α
+
+/-- `get_psf_sky2sky(ra, dec)` with a psf map -/
+def psfMapSky2Sky (M : PsfMap α) (ra dec : α) : α × α × α := M.val ra dec
+
+/-- the conversion step alone: the sky ellipse `v` converted to pixel coordinates AT `(ra, dec)` -/
+def psfConvertAt (W : Wcs α) (ra dec : α) (v : α × α × α) : α × α × α :=
+  let e := sky2pixEllipse W ra dec v.1 v.2.1 v.2.2
+  (e.sx, e.sy, e.theta)
+
+/-- `get_psf_sky2pix(ra, dec)` with a psf map:
+    `psf_sky = self.get_psf_sky2sky(ra, dec); self.sky2pix_ellipse((ra, dec), *psf_sky)[2:]` -/
+def psfMapSky2Pix (W : Wcs α) (M : PsfMap α) (ra dec : α) : α × α × α :=
+  psfConvertAt W ra dec (psfMapSky2Sky M ra dec)
+
+/-- `get_psf_pix2pix(x, y)` with a psf map: `ra, dec = self.pix2sky((x, y)); self.get_psf_sky2pix(ra, dec)` -/
+def psfMapPix2Pix (W : Wcs α) (M : PsfMap α) (x y : α) : α × α × α :=
+  let s := pix2sky W x y
+  psfMapSky2Pix W M s.1 s.2
+
+/-- `get_beamarea_pix(ra, dec)`: `a * b * np.pi` of `get_psf_sky2pix` -/
+def beamAreaPix (W : Wcs α) (M : PsfMap α) (ra dec : α) : α :=
+  let p := psfMapSky2Pix W M ra dec
+  p.1 * p.2.1 * R.pi
+
+/-- `get_beamarea_deg2(ra, dec)` -/
+def beamAreaDeg2 (M : PsfMap α) (ra dec : α) : α :=
+  let p := psfMapSky2Sky M ra dec
+  p.1 * p.2.1 * R.pi
+
+/-- one lookup on a helper -/
+inductive PsfQuery (α : Type)
+  | sky2sky (ra dec : α)
+  | sky2pix (ra dec : α)
+  | pix2pix (x y : α)
+  | skybeam (ra dec : α)
+  | areaPix (ra dec : α)
+  | areaDeg2 (ra dec : α)
+
+/-- what a lookup returns: three numbers (areas are padded with the two factors for comparison) -/
+def answer (W : Wcs α) (M : PsfMap α) : PsfQuery α → α × α × α
+  | .sky2sky ra dec => psfMapSky2Sky M ra dec
+  | .sky2pix ra dec => psfMapSky2Pix W M ra dec
+  | .pix2pix x y => psfMapPix2Pix W M x y
+  | .skybeam ra dec => psfMapSky2Sky M ra dec
+  | .areaPix ra dec => let p := psfMapSky2Pix W M ra dec; (beamAreaPix W M ra dec, p.1, p.2.1)
+  | .areaDeg2 ra dec => let p := psfMapSky2Sky M ra dec; (beamAreaDeg2 M ra dec, p.1, p.2.1)
+
+/-- the helper object's mutable state: whether the psf image / psf WCS have been loaded yet
+    (`_psf_map`, `_psf_wcs`: `None` until first use, then kept).  Nothing else is kept between lookups. -/
+structure PsfHelper (α : Type) where
+  file : PsfMap α
+  loaded : Option (PsfMap α)
+
+def PsfHelper.fresh (M : PsfMap α) : PsfHelper α := ⟨M, none⟩
+
+/-- the `psf_map` / `psf_wcs` properties: load on demand, keep -/
+def PsfHelper.load (h : PsfHelper α) : PsfMap α × PsfHelper α :=
+  match h.loaded with
+  | some m => (m, h)
+  | none => (h.file, { h with loaded := some h.file })
+
+/-- one lookup: answer and next state -/
+def PsfHelper.step (W : Wcs α) (h : PsfHelper α) (q : PsfQuery α) : (α × α × α) × PsfHelper α :=
+  let (m, h') := h.load
+  (answer W m q, h')
+
+/-- a history of lookups on one helper object: all the answers, in order -/
+def PsfHelper.run (W : Wcs α) (h : PsfHelper α) : List (PsfQuery α) → List (α × α × α)
+  | [] => []
+  | q :: qs => let (a, h') := h.step W q; a :: PsfHelper.run W h' qs
+
 /-! ### An executable zenithal WCS, from FITS Paper II
 
 Pixel → intermediate world coordinates (Paper I eq. 9 with a diagonal CDELT matrix), → native spherical
